@@ -89,6 +89,11 @@ CHECKS = {
          "Programs of C01's space become the body of a Python function over their placeholder inputs (wrapped data stays inside the body). Each is called directly and through trace_call with positional / keyword / mixed arguments, one of the three return conventions, nesting depth 1-3, repeated calls (same definition re-called, or re-traced) with other arguments, argument expressions that share nodes, and caller placeholders named exactly like the parameter placeholders trace_call invents. Monitors: results have the direct application's shape/dtype; the call graph evaluates bitwise like the direct application; after tag_all_calls_to_be_inlined + inline_calls no Call node is left (reflective walk and get_num_call_sites), output names and values are unchanged and the inlined graph is structurally the direct application; one in 6-12 is compiled. 162 directed cases with three same-typed parameters in a non-commutative body cover every convention x depth x naming.",
          "Functions closing over caller placeholders are outside trace_call's contract: every placeholder input is a parameter. vf.oracle.refeval's Call rule (fresh environment of evaluated bindings) is the meaning of a call.",
          "DESIGN.md §3 C12"),
+ "C08": ("exploration",
+         "controlled-scheduler runtime monitor: the real partitioner and executor run on every rank of a simulated mpi4py whose scheduler owns every choice MPI leaves open (which rank proceeds at each MPI call, which subset of completable receives Waitsome reports); exhaustive stateless DFS over the choice tree for small instances, adversarial random schedules beyond; offline checker over the recorded event log (deadlock/bounded progress, values vs global reference, context set/get/del discipline, exactly-once message delivery, part order)",
+         "Multi-rank programs (1-4 ranks, 0-6 messages; rings, stars, chains, several messages per pair, forwarded and unchanged received data, send holders as payloads, receives used only through a holder, outputs that are inputs / receives, ImplStored anywhere, tags of six hashable types) are partitioned with the real collective code; every execution logs part runs, Isend/Irecv/completions, Waitsome results and every context access through a monitored mapping; all ranks must return within a step budget, outputs must equal plain NumPy evaluation of the global data flow bitwise, no name may be read before it is set or after it is released, each message must be consumed exactly once by a receive with equal (src,dst,tag), shape and dtype. Instances with <= 3 ranks and <= 4 messages are explored exhaustively up to a cap (counted); one in ten programs also runs its parts through generate_loopy + the C runner.",
+         "The simulated MPI models eager non-blocking sends, non-overtaking delivery and any-non-empty-subset Waitsome; behaviours of real MPI libraries outside the standard are not modelled. 'All schedules' is decided only where the DFS exhausts the tree (evidence: exhaustive_programs).",
+         "DESIGN.md §3 C08"),
 }
 
 NOT_YET = {
